@@ -28,6 +28,16 @@ def _is_sym(x) -> bool:
 
 
 # ---- T2
+class GenList(list):
+    """value of a generator expression on concrete data: the list of its items that can also be consumed with next()
+    (laziness is not modelled: the items are computed at once, in order)"""
+    def __next__(self):
+        it = self.__dict__.get("_it")
+        if it is None:
+            it = self.__dict__["_it"] = list.__iter__(self)
+        return next(it)
+
+
 def comp(f, xs, cond=None, kind="list"):
     COUNTS["comp"] += 1
     if isinstance(xs, SymSeq):
@@ -68,6 +78,8 @@ def comp(f, xs, cond=None, kind="list"):
         out = [f(x) for x in xs if cond(x)]
     if kind == "set":
         return set(out)
+    if kind == "gen":
+        return GenList(out)
     return out
 
 
@@ -96,6 +108,13 @@ def join(sep, xs):
         m = c.table.new("big", ident, sep=sep, template=str.__str__(xs.elem) if isinstance(xs.elem, Name) else xs.elem,
                         seq=xs.root, min_len=xs.min_len)
         return m.text
+    if type(xs) is list and any(isinstance(e, Splice) for e in xs):
+        # a concrete list with placeholders for "all elements of a symbolic sequence": with the empty separator the text is
+        # the concatenation of the parts (a possibly empty sequence would need separator bookkeeping otherwise)
+        COUNTS["symbolic"] += 1
+        if sep != "" or isinstance(sep, Name):
+            raise Unsupported("join with a non-empty separator over a list containing a spliced symbolic sequence")
+        return "".join(join("", e.seq) if isinstance(e, Splice) else e for e in xs)
     if isinstance(sep, str):
         return sep.join(xs)
     return sep.join(xs)
@@ -219,6 +238,16 @@ def b_len(x):
     COUNTS["builtin"] += 1
     if isinstance(x, SymSeq):
         return SymInt(__import__("z3").Int("len!" + x.root))
+    if type(x) is list and any(isinstance(e, Splice) for e in x):
+        # concrete elements + all elements of the spliced symbolic sequences
+        import z3
+        COUNTS["symbolic"] += 1
+        t = z3.IntVal(sum(1 for e in x if not isinstance(e, Splice)))
+        for e in x:
+            if isinstance(e, Splice):
+                t = t + z3.Int("len!" + e.seq.root)
+                pyvc.assume(z3.Int("len!" + e.seq.root) >= e.seq.min_len)
+        return SymInt(t)
     if _is_sym(x):
         if hasattr(x, "sym_len"):
             return x.sym_len()
